@@ -448,7 +448,7 @@ func c18Pool(seed int64) [][]byte {
 		pool = append(pool, []byte(s))
 	}
 	pool = append(pool, []byte("null"), []byte("true"), []byte(" false "), []byte(""), []byte("   "))
-	for _, d := range []int{30, 300, 2500} {
+	for _, d := range []int{30, 300, 2500, 9000} { // 9000: resource guards that count nesting process-wide add up across goroutines (C18r6-m2)
 		pool = append(pool, workload.BuildNest([]int{0, 2}, d, "0", d), workload.BuildNest([]int{1, 3}, d, `"s"`, d/2))
 	}
 	// a document big enough that calls overlap for a long time
